@@ -245,6 +245,9 @@ pub trait VariantApi: Sync {
     fn from_postcard(&self, s: &[u8]) -> Option<Result<H, String>>;
     fn mock_ser(&self, h: &dyn HashObj, human: bool) -> Option<SerRecord>;
     fn mock_de(&self, script: &crate::mockserde::DeScript) -> Option<Result<H, String>>;
+    /// Which `deserialize_*` method the type's `Deserialize` impl calls on a (non-)human-readable
+    /// deserializer (a format that honours the hint delivers only that kind of value).
+    fn mock_de_hint(&self, human: bool) -> Option<String>;
     /// Allocator calls made during `T::deserialize(mock)` alone (mock errors rendered quietly):
     /// (accepted, allocator calls).
     fn mock_de_allocs(&self, script: &crate::mockserde::DeScript) -> Option<(bool, u64)>;
